@@ -104,7 +104,11 @@ def judge(case, results):
             vic = e["victim"]
             if outstanding:
                 v.bad("two-invocations", "", "tick %d: hook fired on %s while invocation %d (victim %s) was still outstanding" % (tick, vic, outstanding["inv"], outstanding["victim"]))
-            dl = e["ctx"]["deadline"]
+            # the window is counted from when the chain fired (deadline seen by the chain head), whatever
+            # context the hook is handed later
+            dl = deadline if deadline is not None else e["ctx"]["deadline"]
+            if deadline is not None and e["ctx"]["deadline"] != deadline:
+                v.bad("window-moved", "", "tick %d: hook %s fired with prekill deadline %s, the chain fired with deadline %s" % (tick, e["id"], e["ctx"]["deadline"], deadline))
             if dl is not None and now > dl + 1:
                 v.bad("fire-after-window", "", "tick %d: hook %s fired on %s at t=%d, window closed at %d" % (tick, e["id"], vic, now, dl))
             want = expected_hook(hooks, vic)
